@@ -39,6 +39,10 @@ impl<'a> Src<'a> {
     }
     pub fn bytes(&mut self, n: usize) -> Vec<u8> {
         let n = n.min(self.left());
+        if n == 0 {
+            // the cursor may already be past the end (reads beyond the input yield zeros)
+            return Vec::new();
+        }
         let v = self.d[self.p..self.p + n].to_vec();
         self.p += n;
         v
@@ -116,7 +120,7 @@ pub fn raw_case(d: &[u8]) -> RawCase {
     if d.first().map(|b| b & 0x80 != 0).unwrap_or(false) {
         ops.remove(0);
     }
-    RawCase { codec, video_configured: true, audio, rate_idx, channels, fast_start, title: None, ops, start: 0 }
+    RawCase { codec, video_configured: true, audio, rate_idx, channels, fast_start, title: None, ops, start: 0, repeat: vec![] }
 }
 
 pub fn frag_case(d: &[u8]) -> FragCase {
@@ -140,7 +144,7 @@ pub fn frag_case(d: &[u8]) -> FragCase {
             _ => FGene::Init,
         });
     }
-    FragCase { codec, via_builder, start, width: 640, height: 480, pset_len: (10, 4, 6), ops, const_interval }
+    FragCase { codec, via_builder, start, width: 640, height: 480, pset_len: (10, 4, 6), ops, const_interval, realistic: false }
 }
 
 pub fn av1_seq(s: &mut Src) -> Av1Seq {
